@@ -384,6 +384,33 @@ func c15Worker(in, out string) error {
 				}
 			}
 			ordered := !pathHasStar(kc.Path)
+			switch kc.Op {
+			case "LeafNodes", "LeafPaths", "LeafValues", "ValuesForKey", "PathsForKey", "PathForKeyShortest", "UpdateValuesForPath", "SetValueForPath", "Remove", "RenameKey":
+				ordered = false // result order is map-iteration order
+			case "NewMap":
+				star := false
+				for _, p := range kc.Pairs {
+					if pathHasStar(strings.SplitN(p, ":", 2)[0]) {
+						star = true
+					}
+				}
+				if star && len(kc.Pairs) > 1 {
+					// lists filled in map-iteration order and then nested by a later pair: no canonical observable
+					res.Counts["args:newmap-wildcard-overlap(no model term)"]++
+					continue
+				}
+				ordered = !star
+			}
+			if pathHasStar(kc.Path) && (kc.Op == "SetValueForPath" || kc.Op == "Remove" || kc.Op == "RenameKey" || kc.Op == "ValueForPath") {
+				// which of several matches is taken depends on map iteration: no deterministic observable to compare
+				res.Counts["args:single-result-on-wildcard(no model term)"]++
+				continue
+			}
+			if keys, okp := specParse(kc.Path); (okp && hasIndexOnStar(keys)) || (!okp && pathHasStar(kc.Path) && strings.Contains(kc.Path, "[")) {
+				// an index on a wildcard step selects by map-iteration order: no deterministic observable to compare
+				res.Counts["args:index-on-wildcard(no model term)"]++
+				continue
+			}
 			res.Terms = append(res.Terms, kc.term(ordered, r.o, r.after))
 			res.Groups = append(res.Groups, 1)
 			res.Inputs = append(res.Inputs, c)
